@@ -1,7 +1,9 @@
 #!/bin/bash
 # confirm every seeded/<id>/ that has no SUMMARY yet, one after the other
 cd /verif
+MOD=${1:-1}; REM=${2:-0}; n=0
 for d in seeded/*/; do
+  n=$((n+1)); [ $((n % MOD)) -ne $REM ] && continue
   if ! grep -q "^SUMMARY" $d/confirm.log 2>/dev/null; then
     crate=$(python3 -c "import json,sys; m=json.load(open('$d/meta.json')); print(m.get('demo_crate') or m['files_changed'][0].split('/')[0])")
     grep -q "harper-ls/tests" $d/demo.rs && crate=harper-ls
